@@ -18,7 +18,8 @@
 //!                                         repeats addresses in shuffled / descending order
 //!     itersyms                            call `iter_symbols()` on the map at this point of the lookup sequence
 //!     stored <kind> <hex>                 one more map over the same text that is offered these bytes as `.symindex`
-//!                                         kind: empty | trunc | magic | counts | foreign | garbage | padded
+//!                                         kind: empty | trunc | magic | counts | foreign | foreign-module |
+//!                                         foreign-prefix | garbage | padded
 //!     wholesym fresh                      the text as `<dir>/x/<ID>/x.sym` under a `wholesym::SymbolManager` with
 //!     wholesym stale <kind> <hex>         `breakpad_symbol_dir` + `breakpad_symindex_cache_dir`; stale: the `.symindex`
 //!                                         file exists already with these bytes
@@ -1012,10 +1013,92 @@ fn stored_ops(rng: &mut Rng, file: &[u8], f: Option<&SymFile>) -> Vec<String> {
         let (st, b) = run_creator(&t, &[(0, t.len())]);
         (st == "ok" && t != file).then_some(b)
     });
-    let bad = bad_indexes(rng, valid.as_deref(), foreign.as_deref());
+    let mut bad = bad_indexes(rng, valid.as_deref(), foreign.as_deref());
+    // Valid indexes of OTHER files (fix 3f61c23c: `make_index_storage` uses a parsable index only if its MODULE
+    // line is the beginning of the .sym file).
+    //   foreign-module: the MODULE line differs (other id / other name / other letter case / one byte longer /
+    //                   one byte shorter) and is not a prefix of ours  => must behave like the self-indexing map
+    //   foreign-prefix: the foreign MODULE line is ours without its last byte: the prefix test of the repaired
+    //                   code accepts it (model: used); no judge clause
+    //   foreign:        same MODULE line (also: CRLF-terminated where ours is LF or vice versa — the CRs are not
+    //                   part of the stored line) => used
+    let index_of = |t: &[u8]| -> Option<Vec<u8>> {
+        let (st, b) = run_creator(t, &[(0, t.len())]);
+        (st == "ok").then_some(b)
+    };
+    match f.and_then(|f| f.module.clone().map(|m| (f, m))) {
+        Some((f, m)) => {
+            let mut variants: Vec<u64> = (0..6).collect();
+            rng.shuffle(&mut variants);
+            for v in variants.into_iter().take(3) {
+                let mut m2 = m.clone();
+                let kind = match v {
+                    0 => {
+                        // another debug id: one hex digit changed
+                        let at = rng.below(m2.id.len().max(1) as u64) as usize;
+                        if let Some(d) = m2.id.get_mut(at) {
+                            *d = if *d == b'0' { b'1' } else { b'0' };
+                        }
+                        "foreign-module"
+                    }
+                    1 => {
+                        match m2.name.last_mut() {
+                            Some(c) => *c = if *c == b'q' { b'r' } else { b'q' },
+                            None => m2.name.push(b'q'),
+                        }
+                        "foreign-module"
+                    }
+                    2 => {
+                        m2.os = if m2.os.iter().any(|c| c.is_ascii_lowercase()) { m2.os.to_ascii_uppercase() } else { m2.os.to_ascii_lowercase() };
+                        "foreign-module"
+                    }
+                    3 => {
+                        m2.name.push(b'x'); // one byte longer
+                        "foreign-module"
+                    }
+                    4 => {
+                        m2.os.remove(0); // one byte shorter, differs from ours at the 8th byte
+                        "foreign-module"
+                    }
+                    _ => {
+                        if m2.name.len() < 2 {
+                            continue;
+                        }
+                        m2.name.pop(); // our MODULE line without its last byte
+                        "foreign-prefix"
+                    }
+                };
+                let mut g = small_wf(rng, 10);
+                g.module = Some(m2);
+                if let Some(b) = index_of(&g.render().bytes) {
+                    bad.push((kind, b));
+                }
+            }
+            let mut g = small_wf(rng, 10);
+            g.module = Some(m);
+            g.terms = vec![if f.terms.iter().all(|t| matches!(t, Term::Lf)) { Term::CrLf } else { Term::Lf }];
+            let t = g.render().bytes;
+            if t != file {
+                if let Some(b) = index_of(&t) {
+                    bad.push(("foreign", b));
+                }
+            }
+        }
+        None => {
+            // literal / junk texts: the index of a random well-formed file (random id, so another MODULE line)
+            let g = small_wf(rng, 10);
+            let r = g.render();
+            let first = strip_terminator(&r.lines[0].bytes).to_vec();
+            if !first.is_empty() && !file.starts_with(&first) {
+                if let Some(b) = index_of(&r.bytes) {
+                    bad.push(("foreign-module", b));
+                }
+            }
+        }
+    }
     let mut ops: Vec<String> = bad.iter().map(|(k, b)| format!("stored {k} {}", hex(b))).collect();
     ops.push("wholesym fresh".to_string());
-    for kind in ["trunc", "foreign", if rng.chance(1, 2) { "empty" } else { "counts" }] {
+    for kind in ["trunc", "foreign", "foreign-module", if rng.chance(1, 2) { "empty" } else { "counts" }] {
         let c: Vec<&(&str, Vec<u8>)> = bad.iter().filter(|(k, _)| *k == kind).collect();
         if !c.is_empty() {
             let (k, b) = *rng.pick(&c);
